@@ -52,8 +52,10 @@ namespace pika::detail {
             // Still registered, not yet executed: just remove from the list.
             *prev_ = next_;
             if (next_ != nullptr) { next_->prev_ = prev_; }
+            PIKA_VERIF_POST("stop.unlink", this, 1, next_ != nullptr);
             return true;
         }
+        PIKA_VERIF_POST("stop.unlink", this, 0, 0);
         return false;
     }
 
@@ -61,35 +63,44 @@ namespace pika::detail {
     void stop_state::lock() noexcept
     {
         auto old_state = state_.load(std::memory_order_relaxed);
+        PIKA_VERIF_POST("stop.load", this, old_state, 0);
 
         auto expected = old_state & ~stop_state::locked_flag;
+        PIKA_VERIF_POINT("stop.cas", this, 0, 0);
         while (!state_.compare_exchange_weak(expected, old_state | stop_state::locked_flag,
             std::memory_order_acquire, std::memory_order_relaxed))
         {
+            PIKA_VERIF_POST("stop.casfail", this, expected, 0);
             old_state = expected;
 
             for (std::size_t k = 0; is_locked(old_state); ++k)
             {
                 pika::execution::this_thread::detail::yield_k(k, "stop_state::lock");
                 old_state = state_.load(std::memory_order_relaxed);
+                PIKA_VERIF_POST("stop.reload", this, old_state, 0);
             }
 
             expected = old_state & ~stop_state::locked_flag;
+            PIKA_VERIF_POINT("stop.cas", this, 0, 0);
         }
+        PIKA_VERIF_POST("stop.acq", this, old_state, 0);
     }
 
     ///////////////////////////////////////////////////////////////////////////
     bool stop_state::lock_and_request_stop() noexcept
     {
         std::uint64_t old_state = state_.load(std::memory_order_acquire);
+        PIKA_VERIF_POST("stop.load", this, old_state, 1);
 
         if (stop_requested(old_state)) return false;
 
         auto expected = old_state & ~stop_state::locked_flag;
+        PIKA_VERIF_POINT("stop.cas", this, 0, 1);
         while (!state_.compare_exchange_weak(expected,
             old_state | stop_state::stop_requested_flag | stop_state::locked_flag,
             std::memory_order_acquire, std::memory_order_relaxed))
         {
+            PIKA_VERIF_POST("stop.casfail", this, expected, 1);
             old_state = expected;
 
             for (std::size_t k = 0; is_locked(old_state); ++k)
@@ -97,12 +108,15 @@ namespace pika::detail {
                 pika::execution::this_thread::detail::yield_k(
                     k, "stop_state::lock_and_request_stop");
                 old_state = state_.load(std::memory_order_acquire);
+                PIKA_VERIF_POST("stop.reload", this, old_state, 1);
 
                 if (stop_requested(old_state)) return false;
             }
 
             expected = old_state & ~stop_state::locked_flag;
+            PIKA_VERIF_POINT("stop.cas", this, 0, 1);
         }
+        PIKA_VERIF_POST("stop.acq", this, old_state, 1);
 
         return true;
     }
@@ -111,33 +125,39 @@ namespace pika::detail {
     bool stop_state::lock_if_not_stopped(stop_callback_base* cb) noexcept
     {
         std::uint64_t old_state = state_.load(std::memory_order_acquire);
+        PIKA_VERIF_POST("stop.load", this, old_state, 2);
 
         if (stop_requested(old_state))
         {
             cb->execute();
 
             cb->callback_finished_executing_.store(true, std::memory_order_release);
+            PIKA_VERIF_POST("stop.infin", cb, 0, 0);
 
             return false;
         }
         else if (!stop_possible(old_state)) { return false; }
 
         auto expected = old_state & ~stop_state::locked_flag;
+        PIKA_VERIF_POINT("stop.cas", this, 0, 2);
         while (!state_.compare_exchange_weak(expected, old_state | stop_state::locked_flag,
             std::memory_order_acquire, std::memory_order_relaxed))
         {
+            PIKA_VERIF_POST("stop.casfail", this, expected, 2);
             old_state = expected;
 
             for (std::size_t k = 0; is_locked(old_state); ++k)
             {
                 pika::execution::this_thread::detail::yield_k(k, "stop_state::add_callback");
                 old_state = state_.load(std::memory_order_acquire);
+                PIKA_VERIF_POST("stop.reload", this, old_state, 2);
 
                 if (stop_requested(old_state))
                 {
                     cb->execute();
 
                     cb->callback_finished_executing_.store(true, std::memory_order_release);
+                    PIKA_VERIF_POST("stop.infin", cb, 0, 0);
 
                     return false;
                 }
@@ -145,7 +165,9 @@ namespace pika::detail {
             }
 
             expected = old_state & ~stop_state::locked_flag;
+            PIKA_VERIF_POINT("stop.cas", this, 0, 2);
         }
+        PIKA_VERIF_POST("stop.acq", this, old_state, 2);
 
         return true;
     }
@@ -176,6 +198,7 @@ namespace pika::detail {
 
         // Push callback onto callback list
         cb->add_this_callback(callbacks_);
+        PIKA_VERIF_POST("stop.push", cb, cb->next_ != nullptr, 0);
         return true;
     }
 
@@ -189,6 +212,7 @@ namespace pika::detail {
 
         // Callback has either already executed or is executing concurrently
         // on another thread.
+        PIKA_VERIF_POINT("stop.rm_check", cb, 0, 0);
         if (signalling_thread_ == pika::threads::detail::get_self_id())
         {
             // Callback executed on this thread or is still currently executing
@@ -199,15 +223,19 @@ namespace pika::detail {
                 // know the object is about to be destructed and that it should
                 // not try to access the object when the callback returns.
                 *cb->is_removed_ = true;
+                PIKA_VERIF_POST("stop.setrem", cb, 0, 0);
             }
+            PIKA_VERIF_POST("stop.self", cb, 1, 0);
         }
         else
         {
             // Callback is currently executing on another thread,
             // block until it finishes executing.
+            PIKA_VERIF_POST("stop.self", cb, 0, 0);
             pika::util::yield_while(
                 [&]() { return !cb->callback_finished_executing_.load(std::memory_order_relaxed); },
                 "stop_state::remove_callback");
+            PIKA_VERIF_POST("stop.waited", cb, 0, 0);
         }
     }
 
@@ -252,22 +280,27 @@ namespace pika::detail {
 
             // Mark this item as removed from the list.
             cb->prev_ = nullptr;
+            PIKA_VERIF_POST("stop.deq", cb, callbacks_ != nullptr, 0);
 
             // Don't hold lock while executing callback so we don't block other
             // threads from unregistering callbacks.
             detail::unlock_guard<stop_state> ul(*this);
+            PIKA_VERIF_POINT("stop.pre_exec", cb, 0, 0);
 
             bool is_removed = false;
             cb->is_removed_ = &is_removed;
 
             cb->execute();
+            PIKA_VERIF_POINT("stop.post_exec", cb, 0, 0);
 
             if (!is_removed)
             {
                 cb->is_removed_ = nullptr;
                 cb->callback_finished_executing_.store(true, std::memory_order_release);
             }
+            PIKA_VERIF_POST("stop.fin", cb, is_removed, 0);
         }
+        PIKA_VERIF_POST("stop.rsdone", this, 0, 0);
 
         return true;
     }
